@@ -2,8 +2,7 @@
    proofs in Proofs/BatchProof.v (bookkeeping refinement) and Proofs/BatchFailProof.v (statement sequence).
 
    Universe of the refinement theorems: every table description T with wf_tbl T (constraint and PK columns exist),
-   every operation sequence of the class `in_class` — drop_column, alter_column (rename / type / nullable / default; not a
-   rename to the column's own key), add / drop named constraint (UNIQUE / CHECK / FK incl. self-referential), create / drop
+   every operation sequence of the class `in_class` — drop_column, alter_column (rename — also back to the original name — / type / nullable / default), add / drop named constraint (UNIQUE / CHECK / FK incl. self-referential), create / drop
    index — of any length, for which the abstract specification `edit_all` gives a table and the modelled ApplyBatchImpl
    (`batch`) does not raise; for EVERY topological-sort function (SQLAlchemy's is never reached in this class) and every
    CAST / DEFAULT behaviour of the database.  add_column (plain and insert_before/after) is inside the model and the
@@ -80,11 +79,6 @@ Theorem C10_readd_last_column_refuted :
 Proof. exact readd_refuted. Qed.
 Print Assumptions C10_readd_last_column_refuted.
 
-Theorem C10_rename_back_refuted :
-  exists i, (exists nd r, model10 i = OutOk nd r false) /\ check_C10 i (model10 i) = false /\ ~ C10_holds i (model10 i).
-Proof. exact rename_back_refuted. Qed.
-Print Assumptions C10_rename_back_refuted.
-
 (* where the model leaves the specification without violating the property text: position of an added column *)
 Theorem C10_added_column_order_refuted : exists i T' nd r,
   edit_all (j_ops i) (j_tbl i) = BOk T' /\ model10 i = OutOk nd r false /\
@@ -121,4 +115,13 @@ Proof.
   split; [vm_compute; reflexivity|]. split; [vm_compute; reflexivity|]. split.
   - intros k [<-|[<-|[]]]; vm_compute; intuition discriminate.
   - eexists; eexists. split; vm_compute; reflexivity.
+Qed.
+
+(* a rename back to the original name is inside the class (repaired code: the guard compares with the current name) *)
+Example C10_schema_rename_back_nonvacuous :
+  let ops := [OAlterColumn w_a (mkAlter (Some w_a2) None None None); OAlterColumn w_a (mkAlter (Some w_a) None None None)] in
+  forallb in_class ops = true /\ (exists T', edit_all ops w_tbl = BOk T') /\
+  (exists nd cm, batch sa_tsort w_tbl ops = BOk (nd, cm) /\ map c_name (n_cols nd) = [w_id; w_a; w_b; w_c]).
+Proof.
+  split; [vm_compute; reflexivity|]. split; [eexists; vm_compute; reflexivity|]. eexists; eexists. split; vm_compute; reflexivity.
 Qed.
